@@ -74,8 +74,8 @@ type txFetch struct{ h *txH }
 func (f txFetch) GetOutputs(ctx context.Context, ops []wire.OutPoint) ([]bitcoin.UTXO, error) {
 	r := make([]bitcoin.UTXO, len(ops))
 	for i, op := range ops {
-		o := f.h.outID(op)
-		r[i] = bitcoin.UTXO{Hash: op.Hash, Index: op.Index, Value: uint64(5000 + o), LockingScript: []byte{0x51, byte(o)}}
+		want := f.h.outWant(f.h.outID(op))
+		r[i] = bitcoin.UTXO{Hash: op.Hash, Index: op.Index, Value: want.Value, LockingScript: want.LockingScript}
 	}
 	return r, nil
 }
@@ -179,7 +179,22 @@ type txH struct {
 	pending  bool  // a replacement block has been announced (after Reorg) and is awaited
 }
 
+// Output ids from txParentBase up are "output 0 of transaction o-txParentBase" (a tracked parent: the node may resolve it from its own
+// tx state records instead of asking the fetcher); the others are outputs of transactions the node has never seen.
+const txParentBase = 50
+
+// outWant: the output an input spending abstract output o must be delivered with.
+func (h *txH) outWant(o int) *wire.TxOut {
+	if o >= txParentBase {
+		return h.txs[o-txParentBase].TxOut[0]
+	}
+	return wire.NewTxOut(uint64(5000+o), []byte{0x51, byte(o)})
+}
+
 func (h *txH) outHash(o int) bitcoin.Hash32 {
+	if o >= txParentBase {
+		return *h.txs[o-txParentBase].TxHash()
+	}
 	var x bitcoin.Hash32
 	x[0] = byte(o)
 	x[1] = 0x0F
@@ -189,6 +204,9 @@ func (h *txH) outHash(o int) bitcoin.Hash32 {
 func (h *txH) outID(op wire.OutPoint) int {
 	if op.Hash[1] == 0x0F && op.Hash[31] == 0x77 {
 		return int(op.Hash[0])
+	}
+	if p, ok := h.idOfTx[op.Hash]; ok {
+		return txParentBase + p
 	}
 	return -1
 }
@@ -416,7 +434,10 @@ func (h *txH) outsOK(tx *client.Tx) bool {
 	for i, in := range tx.Tx.TxIn {
 		o := h.outID(in.PreviousOutPoint)
 		out := tx.Outputs[i]
-		if out == nil || out.Value != uint64(5000+o) || len(out.LockingScript) != 2 || out.LockingScript[1] != byte(o) {
+		if o < 0 || out == nil {
+			return false
+		}
+		if want := h.outWant(o); out.Value != want.Value || !bytes.Equal(out.LockingScript, want.LockingScript) {
 			return false
 		}
 	}
